@@ -58,6 +58,29 @@ Definition of_N (n : N) : float :=
   if (n <? 9223372036854775808)%N then of_uint63 (Uint63.of_Z (Z.of_N n))
   else float_of_rounded false (round_pos (Z.of_N n) 1).
 
+(* ---------- f64 % f64 : fmod ---------- *)
+
+(* Rust's `%` on f64 is C fmod: the exact remainder of the truncated division, with the sign of the dividend (a zero
+   result keeps that sign too); NaN when the dividend is infinite or NaN or the divisor is zero or NaN; the dividend
+   itself when the divisor is infinite.  The remainder of two binary64 numbers is always representable, so the final
+   rounding is exact; it is computed on the integer mantissas brought to the smaller exponent. *)
+Definition fmod (a b : float) : float :=
+  match Prim2SF a, Prim2SF b with
+  | S754_nan, _ => nan
+  | _, S754_nan => nan
+  | S754_infinity _, _ => nan
+  | _, S754_zero _ => nan
+  | S754_zero _, _ => a
+  | S754_finite _ _ _, S754_infinity _ => a
+  | S754_finite sa ma ea, S754_finite _ mb eb =>
+      let e := Z.min ea eb in
+      let A := Zpos ma * 2 ^ (ea - e) in
+      let B := Zpos mb * 2 ^ (eb - e) in
+      let R := A mod B in
+      if R =? 0 then SF2Prim (S754_zero sa)
+      else float_of_rounded sa (if 0 <=? e then round_pos (R * 2 ^ e) 1 else round_pos R (2 ^ (- e)))
+  end.
+
 (* ---------- text -> f64 : core::num::dec2flt ---------- *)
 
 Fixpoint span_digits (x : str) : str * str :=
